@@ -248,8 +248,16 @@ def main(pid, tier, seed):
     try:
         with cf.ThreadPoolExecutor(max_workers=NCPU) as pool:
             futs_a = run_leg_a(check, ctx, pool)
+            futs_p = [pool.submit(tlaps, ctx, module, deps) for module, deps in getattr(check, "TLAPS", [])]
             result = check.run(ctx, pool)           # records traces + validates them (leg B/C)
             leg_a, st_a, tr_a = judge_leg_a(futs_a, failures)
+            if futs_p:
+                proofs = []
+                for f in futs_p:
+                    rec, fails = f.result()
+                    proofs.append(rec)
+                    failures.extend(fails)
+                result.setdefault("coverage", {})["tlaps"] = proofs
         cov = evidence["coverage"]
         cov.update(result.get("coverage", {}))
         cov["states"] = st_a + result.get("states", 0)
